@@ -2957,6 +2957,7 @@ template <typename T>
         report_missed("Unfulfilled expectation");
       }
       this->unlink();
+      sequences.reset(); // leave the sequences while the lock is still held
     }
 
     bool
